@@ -57,6 +57,11 @@ func (g *docGen) words(n int) string {
 		if i > 0 {
 			sb.WriteByte(' ')
 		}
+		if len(VocabValues) > 0 && g.r.P(1, 50) {
+			g.f("vocab-word")
+			sb.WriteString(Pick(g.r, VocabValues))
+			sb.WriteByte(' ')
+		}
 		if g.r.P(1, 60) {
 			g.f("entity-soup")
 			sb.WriteString(Pick(g.r, entitySoup))
@@ -1413,4 +1418,121 @@ func IndexPage(links int) GenDoc {
 	}
 	sb.WriteString(`<div class="pager"><a href="/index/1">1</a> <a href="/index/2">2</a> <a href="/index/3">3</a></div></body></html>`)
 	return GenDoc{Bytes: []byte(sb.String()), URL: "http://example.com/index/2", Origin: fmt.Sprintf("indexpage:%d", links), Features: []string{"index-page"}, UTF8: true}
+}
+
+// boundary returns a count at or next to one of the integer literals of the
+// library's source (its thresholds, limits and capacities), at most max.
+func boundary(r *Rand, max int) (int, bool) {
+	var c []int
+	for _, v := range VocabNumbers {
+		if v <= max {
+			c = append(c, v)
+		}
+	}
+	if len(c) == 0 {
+		return 0, false
+	}
+	v := Pick(r, c) + Pick(r, []int{-1, 0, 0, 1})
+	if v < 1 {
+		v = 1
+	}
+	return v, true
+}
+
+// BoundaryDoc builds a page in which one quantity sits exactly at, just below
+// or just above a number the library's source mentions: words in the page or
+// in one paragraph, links, images, list items, table rows or columns, pager
+// length, title length, nesting depth, or the byte size of the whole page.
+func BoundaryDoc(seed uint64) GenDoc {
+	r := Derive(seed, 0xb0d7)
+	var sb strings.Builder
+	what := r.Intn(11)
+	n, ok := boundary(r, []int{3000, 600, 1500, 400, 300, 120, 40, 60, 250, 300, 60000}[what])
+	if !ok {
+		n = 16
+	}
+	tok := 0
+	w := func(k int) string {
+		var b strings.Builder
+		for i := 0; i < k; i++ {
+			tok++
+			fmt.Fprintf(&b, "bw%x_%d ", seed&0xff, tok)
+		}
+		return b.String()
+	}
+	title := "Boundary page title here"
+	if what == 8 {
+		title = strings.Repeat("t", n)
+	}
+	sb.WriteString("<html><head><title>" + title + "</title></head><body><h1>Boundary page</h1>\n")
+	desc := ""
+	switch what {
+	case 0: // words in the page, spread over paragraphs
+		desc = "page-words"
+		left := n
+		for left > 0 {
+			k := min(left, r.Range(20, 120))
+			sb.WriteString("<p>" + w(k) + "</p>\n")
+			left -= k
+		}
+	case 1: // words in one paragraph
+		desc = "paragraph-words"
+		sb.WriteString("<p>" + w(60) + "</p><p>" + w(n) + "</p><p>" + w(60) + "</p>\n")
+	case 2: // links
+		desc = "links"
+		sb.WriteString("<p>" + w(80) + "</p>\n")
+		for i := 0; i < n; i++ {
+			fmt.Fprintf(&sb, `<a href="/l/%d">link %d</a> `, i, i)
+		}
+	case 3: // images
+		desc = "images"
+		for i := 0; i < n; i++ {
+			fmt.Fprintf(&sb, `<img src="/i/%d.jpg" width="300" height="200">`, i)
+		}
+		sb.WriteString("<p>" + w(120) + "</p>\n")
+	case 4: // list items
+		desc = "list-items"
+		sb.WriteString("<p>" + w(60) + "</p><ul>")
+		for i := 0; i < n; i++ {
+			sb.WriteString("<li>" + w(r.Range(1, 6)) + "</li>")
+		}
+		sb.WriteString("</ul>\n")
+	case 5: // table rows
+		desc = "table-rows"
+		sb.WriteString("<p>" + w(60) + "</p><table>")
+		for i := 0; i < n; i++ {
+			sb.WriteString("<tr><td>" + w(2) + "</td><td>" + w(1) + "</td></tr>")
+		}
+		sb.WriteString("</table>\n")
+	case 6: // table columns
+		desc = "table-cols"
+		sb.WriteString("<p>" + w(60) + "</p><table><tr>")
+		for i := 0; i < n; i++ {
+			sb.WriteString("<td>" + w(1) + "</td>")
+		}
+		sb.WriteString("</tr><tr><td>" + w(3) + "</td></tr></table>\n")
+	case 7: // pager length
+		desc = "pager-length"
+		sb.WriteString("<p>" + w(100) + "</p><div class=\"pager\">")
+		for i := 1; i <= n; i++ {
+			fmt.Fprintf(&sb, `<a href="/story/page/%d">%d</a> `, i, i)
+		}
+		sb.WriteString("</div>\n")
+	case 8:
+		desc = "title-length"
+		sb.WriteString("<p>" + w(150) + "</p>\n")
+	case 9: // nesting depth
+		desc = "depth"
+		sb.WriteString(strings.Repeat("<div>", n) + "<p>" + w(80) + "</p>" + strings.Repeat("</div>", n))
+	case 10: // byte size of the page
+		desc = "page-bytes"
+		sb.WriteString("<p>" + w(100) + "</p>\n")
+	}
+	sb.WriteString("</body></html>")
+	out := sb.String()
+	if what == 10 && n > len(out)+20 {
+		pad := n - len(out) - len("<p></p>")
+		out = strings.Replace(out, "</body>", "<p>"+strings.Repeat("x", pad)+"</p></body>", 1)
+	}
+	return GenDoc{Bytes: []byte(out), URL: "http://example.com/story/page/2", Origin: fmt.Sprintf("boundary:%x/%s=%d", seed, desc, n), Features: []string{"boundary-" + desc}, UTF8: true}
 }
